@@ -250,6 +250,43 @@ def run(ctx):
             ctx.violation("U6", f, key, msg, node=node, file=f.file,
                           witness="server announces DIGEST-MD5 (first in the client's preference order): connect() raises instead of authenticating")
     ctx.need("U6", "functions below the mechanisms", nchk, 4)
+    # "connect returns True iff the server accepted them": the flag discipline of C10 (A3) - truthy only under the mechanism's success,
+    # mechanisms True only on OK, and a fresh connection starts unauthenticated
+    from .c10 import a3
+    conn = a3(ctx, R)
+    ctx.rule("U7", "connect's verdict is the authenticator's verdict for THIS connection")
+    acalls = [c for c in self_calls(conn, auth.name)]
+    rets = [r for r in walk_no_nested(conn.node) if isinstance(r, ast.Return) and r.value is not None]
+    good = bad = None
+    from sa.util import fact_call
+    cfgc = ctx.cfg(conn)
+
+    def accepted(fc):
+        e, pol = fact_call(fc)
+        return pol is True and e is not None and any(e is c for c in acalls)
+    for r in rets:
+        v = r.value
+        cv = const_value(ctx.program, conn, v)
+        under = all(cfgc.guarded(x, accepted) for x in cfgc.nodes_for(r))
+        if isinstance(v, ast.Call) and any(v is c for c in acalls):
+            good = r
+        elif isinstance(v, ast.Name) and any(isinstance(a, ast.Assign) and any(a.value is c for c in acalls) and any(
+                isinstance(t, ast.Name) and t.id == v.id for t in a.targets) for a in walk_no_nested(conn.node)):
+            good = r
+        elif isinstance(v, ast.Attribute) and v.attr == "authenticated":
+            good = r  # the flag: reset on connect and set only under success (A3 above)
+        elif cv is True and under:
+            good = r
+        elif cv in (False, None) and cv is not TOP and not under:
+            continue
+        else:
+            bad = bad or r
+    if good is not None and bad is None:
+        ctx.holds("U7", "%s returns the authenticator's result (other exits are falsy constants)" % conn.qualname)
+    else:
+        ctx.violation("U7", conn, "verdict-not-from-authenticator", "connect() returns %s, which is not the authenticator's result" % (
+            norm(bad.value) if bad is not None else "nothing"), node=bad or conn.node,
+            witness="connect() reports success although the server refused the credentials (or the reverse)")
 
 
 def show_tpl(t):
